@@ -88,7 +88,9 @@ def expected(l):
         r = ta - tb
         lim = DMAX
     elif op == "to_timespec":
-        return ("none" if a[0] > SMAX else ("some", str(a[0]), a[1])), a[0] >= SMAX - 1
+        if a[0] > SMAX:
+            return "nopanic", False      # not representable: the statement does not say what must happen
+        return ("some", str(a[0]), a[1]), a[0] >= SMAX - 1
     elif op == "elapsed":
         c = (int(l["c"][0]), int(l["c"][1]))
         tc = c[0] * NPS + c[1]
